@@ -9,7 +9,7 @@ META = {
             'derivation step / grammar line, add an epsilon edge, answer of a neighbouring phase, the unchanged input) and ill-formed '
             'text; for every answer the printed verdict is compared with the exercise criterion evaluated by independent oracles on the '
             'submitted text (OK must imply the criterion) and with the Lean model of the checker on the parsed objects; non-trivial = '
-            'answer that differs from the key; distinct by (exercise, instance, answer)',
+            'answer that differs from the key; distinct by (exercise, instance, answer); also the from-file checkers (called twice on the same file with different bounds), the cfg word-list checker (bottom-up unit chains), the accept / reject checkers, random-order genuine derivations, XYX sentential forms, epsilon edges in either spelling; the verdict is OK when ANY output line is OK; the whole text pipeline is compared with Gamba.Model.CheckText',
     'assumptions': ['answers are parsed by the library parsers (C16/C17); criteria are those of DESIGN.md section 6 C12'],
     'trusted_base': ['Spec: Gamba/Spec/Check.lean (criteria)'],
 }
